@@ -7,7 +7,7 @@ with a = 10^(m-p), b = 10^(m-q); the checked variants never panic.
 Oracle: DESIGN.md Appendix A.2 (written from the statement, not from the code).
 """
 from ..absint import Interp, Opts
-from ..harness import (M, T_ADD, T_SUB, T_CADD, T_CSUB, SCALES_QUICK, SCALES_ALL, dec_val, int_val, dec_parts, opt_parts,
+from ..harness import (dec_coeff, M, T_ADD, T_SUB, T_CADD, T_CSUB, SCALES_QUICK, SCALES_ALL, dec_val, int_val, dec_parts, opt_parts,
                        poly_eq, show_outcome, show_poly, notes_of, get_db, run_jobs, find_root)
 from ..db import INT_TYPES9
 from ..poly import padd, pscale, pfreeze
@@ -32,16 +32,16 @@ def run_job(job):
     st = I.new_state()
     if form == 'DD':
         xa, ya = dec_val(st, 'x', p), dec_val(st, 'y', q)
-        xc, yc = xa.fields[0], ya.fields[0]
+        xc, yc = dec_coeff(xa), dec_coeff(ya)
     elif form == 'DI':
         xa = dec_val(st, 'x', p)
         ya = int_val(st, 'y', ty)
-        xc, yc = xa.fields[0], ya
+        xc, yc = dec_coeff(xa), ya
         q = 0
     else:
         xa = int_val(st, 'x', ty)
         ya = dec_val(st, 'y', q)
-        xc, yc = xa, ya.fields[0]
+        xc, yc = xa, dec_coeff(ya)
         p = 0
     m = max(p, q)
     a, b = 10 ** (m - p), 10 ** (m - q)
